@@ -130,6 +130,7 @@ void runLimits(const Opts& o, long idx, CaseLog& log) {
         if (allWithin) log.viol("C17", std::string("at_limit/") + LIMS[k.a].name + "/api_refused", desc + ": " + bo.cls + " " + bo.what);
         log.line("RES %ld %s build_refused within=%d", idx, desc.c_str(), allWithin ? 1 : 0); return;
     }
+    if (o.geti("lockgroups", 0)) { for (size_t g = 0; g < c.parameters().nbGroups(); ++g) { const std::string gn = c.parameters().group(g).name(); if (!gn.empty() && gn != "POINT" && gn != "ANALOG" && gn != "FORCE_PLATFORM") { try { c.lockGroup(gn); } catch (const std::exception&) {} } } desc += "+locked_groups"; }
     Snap a = take(c);
     Outcome so; log.pre("write", desc); VF_TRY(so, c.write(fp)); log.ev("save", desc, so);
     if (so.threw) {
